@@ -3,6 +3,7 @@ package bqlm
 import (
 	"context"
 	"fmt"
+	"runtime/debug"
 	"sort"
 	"strings"
 	"time"
@@ -24,6 +25,7 @@ type Result struct {
 	Rows    []string // canonical rows in RETURNED order (col=key; over Cols sorted by name)
 	Cells   [][]Val  // cells in returned order, columns in Cols order
 	NilBoth bool     // (nil table, nil error)
+	Stack   string   // for panics: the badwolf frames of the panicking goroutine
 }
 
 // Sorted returns the canonical rows as a sorted multiset.
@@ -70,6 +72,23 @@ func Canon(t *table.Table, cols []string) ([]string, [][]Val) {
 	return rows, cells
 }
 
+// panicSite returns the badwolf function frames of the current (panicking) stack.
+func panicSite() string {
+	var out []string
+	for _, l := range strings.Split(string(debug.Stack()), "\n") {
+		if strings.HasPrefix(l, "github.com/google/badwolf/") {
+			if i := strings.LastIndex(l, "("); i > 0 {
+				l = l[:i]
+			}
+			out = append(out, strings.TrimPrefix(l, "github.com/google/badwolf/"))
+		}
+	}
+	if len(out) > 4 {
+		out = out[:4]
+	}
+	return strings.Join(out, " < ")
+}
+
 // HangTimeout bounds one statement; a statement normally takes microseconds.
 var HangTimeout = 60 * time.Second
 
@@ -81,7 +100,7 @@ func Exec(st storage.Store, text string, chanSize, bulkSize int, cols []string) 
 		res := &Result{}
 		defer func() {
 			if p := recover(); p != nil {
-				res = &Result{Stage: "panic", Err: fmt.Sprint(p)}
+				res = &Result{Stage: "panic", Err: fmt.Sprint(p), Stack: panicSite()}
 			}
 			done <- res
 		}()
